@@ -65,6 +65,7 @@ def main(argv):
         os._exit(code)
 
     try:
+        os.environ["VPM_PID"] = pid
         atheris = _import_instrumented()
         import hypothesis
         from hypothesis import given, settings, HealthCheck, Phase
